@@ -306,8 +306,8 @@ func (f *itemIter) IsOrdered() bool { return false }
 
 func genW2(r *rec.Rand) w2Case {
 	c := w2Case{Kind: 4}
-	universe := r.Range(2, 12)
-	failures := r.Chance(1, 3)
+	universe := r.Range(2, 8)
+	failures := r.Chance(1, 2)
 	nch := r.Range(0, 3)
 	if r.Chance(4, 5) && nch == 0 {
 		nch = 1
@@ -323,7 +323,7 @@ func genW2(r *rec.Rand) w2Case {
 			var items []int
 			n := r.Intn(5)
 			for k := 0; k < n; k++ {
-				if failures && r.Chance(1, 8) {
+				if failures && r.Chance(1, 4) {
 					items = append(items, -1)
 				} else {
 					items = append(items, r.Intn(universe))
@@ -455,13 +455,46 @@ func genBFS(r *rec.Rand) bfsCase {
 		c.Start = r.Intn(c.N)
 	}
 	c.Depth = r.Range(1, 5)
-	if r.Chance(1, 3) {
-		c.Depth = r.Range(2, c.N+2)
+	if d := bfsDist(c); d > 0 && r.Chance(2, 3) {
+		// around the limit at which the nearest direct member is (just / just not) reached
+		c.Depth = d - 2 + r.Intn(4)
+		if c.Depth < 1 {
+			c.Depth = 1
+		}
 	}
-	if r.Chance(1, 8) {
+	if r.Chance(1, 10) {
 		c.Depth = 25
 	}
 	return c
+}
+
+// bfsDist: number of edges from the start node to the nearest direct member (0 = none reachable
+// in >= 1 steps).
+func bfsDist(c bfsCase) int {
+	direct := map[int]bool{}
+	for _, d := range c.Direct {
+		direct[d] = true
+	}
+	seen := map[int]bool{}
+	frontier := []int{c.Start}
+	for dist := 1; dist <= c.N+1 && len(frontier) > 0; dist++ {
+		var next []int
+		for _, x := range frontier {
+			for _, e := range c.Edges {
+				if e[0] == x {
+					if direct[e[1]] {
+						return dist
+					}
+					if !seen[e[1]] {
+						seen[e[1]] = true
+						next = append(next, e[1])
+					}
+				}
+			}
+		}
+		frontier = next
+	}
+	return 0
 }
 
 var bfsScenarioTypes = []scen.TypeDef{{Name: "user"},
@@ -561,8 +594,8 @@ func listObjects(ctx context.Context, env *scen.Env, resolver graph.CheckResolve
 	}
 }
 
-const loDeadline = 3 * time.Second
-const loWatchdog = 6 * time.Second
+const loDeadline = 2 * time.Second
+const loWatchdog = 7 * time.Second
 
 func listObjects1(ctx context.Context, env *scen.Env, resolver graph.CheckResolver, e loEngine, typ, rel, user string, breadth uint32) ([]string, int) {
 	flags := []string{}
